@@ -22,6 +22,7 @@ MODULES = {
     "hist_c03": ("src/histogram.rs", K / "hist_c03.rs"),
     "hist_c02": ("src/histogram.rs", K / "hist_c02.rs"),
     "hist_c18": ("src/histogram.rs", K / "hist_c18.rs"),
+    "registry_c06": ("src/registry.rs", K / "registry_c06.rs"),
     "vec_c05": ("src/vec.rs", K / "vec_c05.rs"),
     "desc_c09": ("src/desc.rs", K / "desc_c09.rs"),
     "atomic_c01": ("src/atomic64.rs", K / "atomic_c01.rs"),
@@ -121,6 +122,15 @@ PLAN = {
         functions=[],
         assumptions=[A2, ENV, "sequential histories are decided by induction (step obligations from an arbitrary state satisfying the representation invariant); concurrent histories only through the C02 step guarantees (collector's exit condition = G-col) and assumption A3", "no-overflow precondition: counts < 2^40 per cell in the symbolic state (the code's own limit is 2^63)", "HistogramCore::new's shard construction is represented by Shard::new/ShardAndCount::new (base case); Desc::new is outside this cone"],
     ),
+    "C12": dict(
+        title="Local (unsync) metrics hand over exactly what they accumulated",
+        level="proof",
+        modules=["counter_c01", "hist_c08", "hist_c03", "hist_c02", "hist_c18"],
+        crate_modules=["__venv"],
+        verus=["c01_rmw_fold.rs", "c03_history.rs"],
+        functions=[],
+        assumptions=[A2, ENV, "ledger invariant 'shared = direct + sum of flushed batches' is proved per step from arbitrary states (sequential) and lifted to all histories by the Verus lemmas (sum_append / conservation); the vector forms (GenericLocalCounterVec, LocalHistogramVec: with_label_values cache, remove_label_values, drop of the whole vector) are NOT under contract in the quick tier: their children are the local metrics covered here, their cache is a map keyed by the C05 hash"],
+    ),
     "C18": dict(
         title="A timer records its duration exactly once, or never when discarded",
         level="proof",
@@ -159,6 +169,15 @@ PLAN = {
         verus=[],
         functions=[],
         assumptions=[MAPS_ASSUMPTION, FMT_ASSUMPTION, "linearizability by lock composition: parking_lot::RwLock gives mutual exclusion (A1) and guards are the only access path to the map (Rust typing); what is machine-checked is the sequential contract of every critical section from an arbitrary map state and the lock discipline (each operation's effect inside exactly one write-guard section, read-side fast path effect-free, no guard held on return, no acquisition while holding). No interleaving is explored."],
+    ),
+    "C06": dict(
+        title="Registry admission is exact and a failed registration leaves no trace",
+        level="proof",
+        maps=True,
+        modules=["registry_c06"],
+        verus=[],
+        functions=[],
+        assumptions=[MAPS_ASSUMPTION, FMT_ASSUMPTION, "collectors are harness structs with literal descriptors (ids and dimension hashes symbolic over all u64, names from {\"\", \"a\"}); that descriptor identity is structural (id/dim_hash are faithful hashes of name, const-label values, help and label names) is C15", "no accidental 64-bit collision between a collector id (wrapping sum of descriptor ids) and an unrelated registered collector id"],
     ),
     "C08": dict(
         title="Bucket counts follow 'value <= upper bound' for every input",
